@@ -62,28 +62,47 @@ fn count_pass(sc: &Scenario) -> (Vec<Point>, World) {
     (points, a)
 }
 
-fn select(points: &[Point], rng: &mut Rng, all: bool, budget: usize) -> Vec<Point> {
+fn select(points: &[Point], ops: &[Op], rng: &mut Rng, all: bool, budget: usize) -> Vec<Point> {
     if all || points.len() <= budget {
         return points.to_vec();
     }
+    // tier 1: the un-versioned per-height block tables (index, block, raw block) are written one after the other
+    // and nothing but their order keeps them consistent: every write to them inside a reorg, and inside one commit
+    // of the history, is a crash point (they are few); thinned only beyond half of the budget
+    let mut tier1: Vec<usize> = (0..points.len()).filter(|i| points[*i].site.starts_with("block.db") && matches!(ops[points[*i].op], Op::Reorg { .. })).collect();
+    let commits: Vec<usize> = {
+        let mut c: Vec<usize> = points.iter().filter(|p| p.site.starts_with("block.db") && !matches!(ops[p.op], Op::Reorg { .. })).map(|p| p.op).collect();
+        c.dedup();
+        c
+    };
+    if !commits.is_empty() {
+        let focus = commits[rng.below(commits.len() as u64) as usize];
+        tier1.extend((0..points.len()).filter(|i| points[*i].op == focus && points[*i].site.starts_with("block.db")));
+    }
+    while tier1.len() > budget / 2 {
+        let j = rng.below(tier1.len() as u64) as usize;
+        tier1.remove(j);
+    }
     let mut keep = vec![false; points.len()];
-    // table boundaries and the first / last three writes of every op
+    // tier 2: first / last write of every op, the writes next to a change of site, and the 2nd and 3rd write of a
+    // run of writes to the same kind of table (inside the loops over keys / blocks)
     for i in 0..points.len() {
         let first_of_op = i == 0 || points[i - 1].op != points[i].op;
         let last_of_op = i + 1 == points.len() || points[i + 1].op != points[i].op;
         let boundary = i > 0 && points[i - 1].site != points[i].site;
-        // the 2nd and 3rd write of a run of writes to the same kind of table: inside the loops over keys / blocks
         let run_pos = (0..=i).rev().take_while(|j| points[*j].site == points[i].site && points[*j].op == points[i].op).count();
         if first_of_op || last_of_op || boundary || run_pos == 2 || run_pos == 3 {
             keep[i] = true;
         }
     }
-    let mut idx: Vec<usize> = (0..points.len()).filter(|i| keep[*i]).collect();
-    // thin the mandatory ones if they alone exceed the budget, then fill up randomly
-    while idx.len() > budget {
+    let mut idx: Vec<usize> = (0..points.len()).filter(|i| keep[*i] && !tier1.contains(i)).collect();
+    // thin the second tier if it exceeds what is left of the budget, then fill up randomly
+    let rest = budget - tier1.len();
+    while idx.len() > rest {
         let j = rng.below(idx.len() as u64) as usize;
         idx.remove(j);
     }
+    idx.extend(tier1);
     let mut tries = 0;
     while idx.len() < budget && tries < 10 * budget {
         let j = rng.below(points.len() as u64) as usize;
@@ -93,6 +112,7 @@ fn select(points: &[Point], rng: &mut Rng, all: bool, budget: usize) -> Vec<Poin
         tries += 1;
     }
     idx.sort();
+    idx.dedup();
     idx.into_iter().map(|i| points[i].clone()).collect()
 }
 
@@ -218,6 +238,9 @@ fn check_point(sc: &Scenario, pt: &Point, stats: &mut crate::world::Stats, valid
                 Some(c) => fresh_replay(&pre.chain, c, "c04-fresh"),
                 None => Instance::fresh("c04-empty"),
             };
+            for c in &pre.committed_parked {
+                let _ = fresh.call(&c.method, c.params.clone());
+            }
             if let Some((kind, d)) = compare(&mut b.inst, &mut fresh, &uni, Depth::Full) {
                 return Some(Violation::new(format!("crash-outside-commit-lost-more-than-uncommitted/{kind}"), detail(json!({"diff(reopened,replay-to-last-commit)": d}))));
             }
@@ -364,13 +387,13 @@ impl Prop for C04 {
         let mut v = case_of(&g.scenario());
         v["select_seed"] = json!(rng.derive("select").next());
         v["all_points"] = json!(tier == Tier::Thorough);
-        v["budget"] = json!(if tier == Tier::Quick { 60 } else { 100000 });
+        v["budget"] = json!(if tier == Tier::Quick { 80 } else { 100000 });
         // every n-th crash point is cross-checked against a real process kill
         v["real_kill_every"] = json!(if tier == Tier::Quick { 12 } else { 9 });
         v
     }
     fn rule(&self) -> String {
-        "case = one seeded history (commit every 1-3 blocks, reorgs, restarts) + a set of crash points. A first fault-free pass counts every persistent write (failpoint before each RocksDB put/delete/flush of commitToDatabase, reorg and block finalisation); then for each selected (op, write index) the history is re-executed on a fresh directory, the process 'dies' at that write (it and every later write fail, the instance is dropped) and the directory is reopened. Oracle: crash in finalisation => obs == fresh replay to the last commit; crash in commit/reorg => brc20_reorg(H) for H = min(last committed height, reorg target in progress) (plus a deeper H for a sample) must be accepted and obs == fresh replay to H, a sample is then extended by 2 blocks on both sides; every fifth image dies a second time at write 0-8 of the repairing reorg and is reopened before the repair is attempted again. quick: table boundaries + first/last write of every op + the 2nd/3rd write of every run of same-kind writes + random fill up to 60 points per history; thorough: every write index. evaluations = crash images checked is reported in events; distinct = sha256 of op list; non-trivial = at least one image inside a commit or reorg was repaired and compared".into()
+        "case = one seeded history (commit every 1-3 blocks, reorgs, restarts) + a set of crash points. A first fault-free pass counts every persistent write (failpoint before each RocksDB put/delete/flush of commitToDatabase, reorg and block finalisation); then for each selected (op, write index) the history is re-executed on a fresh directory, the process 'dies' at that write (it and every later write fail, the instance is dropped) and the directory is reopened. Oracle: crash in finalisation => obs == fresh replay to the last commit; crash in commit/reorg => brc20_reorg(H) for H = min(last committed height, reorg target in progress) (plus a deeper H for a sample) must be accepted and obs == fresh replay to H, a sample is then extended by 2 blocks on both sides; every fifth image dies a second time at write 0-8 of the repairing reorg and is reopened before the repair is attempted again. quick: up to 80 points per history - every write to the un-versioned block tables inside reorgs and inside one commit (up to half of the budget), then first/last write of every op, site changes and the 2nd/3rd write of every run of same-kind writes, then random fill; thorough: every write index. evaluations = crash images checked is reported in events; distinct = sha256 of op list; non-trivial = at least one image inside a commit or reorg was repaired and compared".into()
     }
     fn assumptions(&self) -> Vec<String> {
         vec![
@@ -405,9 +428,14 @@ impl Prop for C04 {
         let mut rng = Rng::new(case["select_seed"].as_u64().unwrap_or(1));
         let selected = match only {
             Some((o, k)) => points.iter().filter(|p| p.op == o && p.k == k).cloned().collect(),
-            None => select(&points, &mut rng, case["all_points"].as_bool().unwrap_or(false), case["budget"].as_u64().unwrap_or(36) as usize),
+            None => select(&points, &sc.ops, &mut rng, case["all_points"].as_bool().unwrap_or(false), case["budget"].as_u64().unwrap_or(36) as usize),
         };
         stats.add("persistent_writes_counted", points.len() as u64);
+        if std::env::var("VERIF_C04_DUMP").is_ok() {
+            for p in &points {
+                eprintln!("point op={} {} k={} site={}", p.op, sc.ops[p.op].kind_name(), p.k, p.site);
+            }
+        }
         let mut violation = None;
         let mut sites = std::collections::BTreeSet::new();
         for pt in &selected {
